@@ -1,12 +1,4 @@
 package cluster
 
-import "qedverif/lib"
-
 // Workers are child-process entry points (qv worker <name> args...).
 var Workers = map[string]func(args []string) int{}
-
-func RunC07(c *lib.Ctx) { c.Inconclusive("C07: check not built yet") }
-
-func RunC09(c *lib.Ctx) { c.Inconclusive("C09: check not built yet") }
-
-func RunC16(c *lib.Ctx) { c.Inconclusive("C16: check not built yet") }
